@@ -592,7 +592,9 @@ func runConcrete(l *loaded, cfg *RunCfg, entry *ssa.Function, name string, input
 			out.Failed = append(out.Failed, l)
 		}
 	}
-	if len(out.Failed) > 0 {
+	if len(out.Failed) > 0 && out.Status != "assume" {
+		// (a vector that ends in a failed vAssume is outside the harness' precondition, natively
+		// too; failures recorded before that point do not count on either side)
 		out.Status = "assert"
 	}
 	if len(e.pending) > 0 {
